@@ -18,6 +18,8 @@ func chunkSize(kind string) int {
 		return 25
 	case strings.HasPrefix(kind, "small"):
 		return 20000
+	case strings.HasPrefix(kind, "faultenum:"):
+		return 1920
 	}
 	return 1500
 }
@@ -28,6 +30,8 @@ func genCase(kind string, seed int64, prop string, idx int) *Case {
 	case strings.HasPrefix(kind, "hist:"):
 		p := profileByName(kind[len("hist:"):])
 		return &Case{Kind: kind, H: genHistory(caseRand(seed, kind, idx), p)}
+	case strings.HasPrefix(kind, "faultenum:"):
+		return genFaultEnum(kind, seed, idx)
 	case strings.HasPrefix(kind, "pool:"):
 		p := profileByName(kind[len("pool:"):])
 		return &Case{Kind: kind, H: genPoolHistory(caseRand(seed, kind, idx), p)}
@@ -99,7 +103,7 @@ func shapeOf(h *History) uint64 {
 // checkCase runs one case under all monitors.
 func checkCase(prop string, c *Case, trace bool) *CaseResult {
 	switch {
-	case strings.HasPrefix(c.Kind, "hist:") || strings.HasPrefix(c.Kind, "small") || strings.HasPrefix(c.Kind, "pool:"):
+	case strings.HasPrefix(c.Kind, "hist:") || strings.HasPrefix(c.Kind, "small") || strings.HasPrefix(c.Kind, "pool:") || strings.HasPrefix(c.Kind, "faultenum:"):
 		w := newWorld(c.H, true, trace)
 		if prop == "C05" {
 			w.mon.checkDepth = true
